@@ -365,7 +365,7 @@ def _r6(rep, src, label, full):
         same_dicts = {heap.objs[res.name]['db'].name, heap.objs[res.name]['rdb'].name} == {'@db.db', '@db.rdb'}
         doc = (ast.get_docstring(f.node) or '').lower()
         if (shared_r or shared_d) and not same_dicts:
-            rep.fail('C20.R5', f.site, 'no shared mutable sets' + ('' if full or f.qual == 'DB.filter_tags' else label),
+            rep.fail('C20.R5', f.site, 'no shared mutable sets',      # (the same finding on every relation: no label in the key)
                      'the returned collection is a separate object but its %s index uses set objects of the receiver, which a later insert() on either collection%s '
                      'extends in place: afterwards one collection lists a package under a tag without listing the tag for the package%s'
                      % ('tag→packages' if shared_r else 'package→tags', '' if shared_r else ' through its reverse() view',
